@@ -10,8 +10,8 @@ EXTENDS Phase1
 
 B(x) == FromInt(x)
 Asset(id, q) == IF q = 0 THEN <<>> ELSE <<[id |-> id, q |-> B(q)]>>
-Out(c, q) == [coin |-> B(c), assets |-> Asset("A", q), net |-> 1, kh |-> "", sh |-> ""]
-In(c, q)  == [coin |-> B(c), assets |-> Asset("A", q), net |-> 1, kh |-> "k1", sh |-> ""]
+Out(c, q) == [coin |-> B(c), assets |-> Asset("A", q), net |-> 1, kh |-> "", sh |-> "", dh |-> FALSE]
+In(c, q)  == [coin |-> B(c), assets |-> Asset("A", q), net |-> 1, kh |-> "k1", sh |-> "", dh |-> FALSE]
 
 W1g == [kh |-> "k1", ok |-> TRUE]
 W1b == [kh |-> "k1", ok |-> FALSE]
@@ -41,7 +41,7 @@ Tx(era, pl, ic, iq, oc, oq, fee, mint, wits, reqs, size, reds) == [
     txNet |-> 1, envNet |-> 1,
     ttl |-> [has |-> TRUE, v |-> B(5)], vstart |-> [has |-> TRUE, v |-> B(1)], slot |-> B(3),
     langsUsed |-> IF pl THEN <<3>> ELSE <<>>,
-    pp |-> [a |-> 1, b |-> 0, maxSize |-> B(2), maxMem |-> B(2), maxSteps |-> B(2), coinsPerByte |-> B(1),
+    pp |-> [a |-> 1, b |-> 0, maxSize |-> B(2), maxMem |-> B(2), maxSteps |-> B(2), coinsPerByte |-> B(1), minAdaUnits |-> 1, dhUnits |-> 0,
             maxValSize |-> 10, maxColl |-> 1, collPct |-> 150, langs |-> <<1, 2, 3>>] ]
 
 CONSTANTS MaxCoin,      \* largest ada amount of an input
